@@ -37,8 +37,9 @@ class C01(ProgramProperty):
         rng.shuffle(shuffled)
         order = list(recs)
         rng.shuffle(order)
-        steps = [{"op": "init", "dst": 0, "records": recs, "delim": [ord(c) for c in delim]},
-                 {"op": "init", "dst": 1, "records": shuffled, "delim": [ord(c) for c in delim]},
+        cont = lambda: rng.choice(["list", "list", "tuple", "iter", "generator", "dict_values"])   # any iterable of records
+        steps = [{"op": "init", "dst": 0, "records": recs, "delim": [ord(c) for c in delim], "container": cont()},
+                 {"op": "init", "dst": 1, "records": shuffled, "delim": [ord(c) for c in delim], "container": cont()},
                  {"op": "init", "dst": 2, "records": [], "delim": [ord(c) for c in delim]}]
         for r in order:
             steps.append({"op": "add_record", "c": 2, "record": r})
